@@ -337,8 +337,11 @@ fn builder_trace(args: &[String]) -> anyhow::Result<()> {
     use plonky2::field::types::Field;
     use plonky2::gates::constant::ConstantGate;
     use plonky2::gates::noop::NoopGate;
+    use plonky2::field::extension::{Extendable, FieldExtension};
+    use plonky2::iop::ext_target::ExtensionTarget;
     use plonky2::iop::target::Target;
     use plonky2::plonk::circuit_data::CircuitConfig;
+    type FE = <F as Extendable<D>>::Extension;
     type C = PoseidonGoldilocksConfig;
     type F = <C as GenericConfig<D>>::F;
     let out = opt(args, "--out").ok_or_else(|| anyhow::anyhow!("--out"))?;
@@ -347,9 +350,10 @@ fn builder_trace(args: &[String]) -> anyhow::Result<()> {
     let nc = opt_usize(args, "--nc", 2);
     let runs = opt_usize(args, "--runs", 20);
     let len = opt_usize(args, "--len", 60);
-    let mut r = rng(0xB11D + (nw * 1000 + nr) as u64);
+    let nobase = opt_usize(args, "--nobase", 0) == 1;
+    let mut r = rng(0xB11D + (nw * 1000 + nr) as u64 + if nobase { 77 } else { 0 });
     let mut w = NdJson::create(out)?;
-    w.put(&json!({"ev": "config", "nw": nw, "nr": nr, "nc": nc}));
+    w.put(&json!({"ev": "config", "nw": nw, "nr": nr, "nc": nc, "nobase": nobase}));
     let tj = |t: Target| match t {
         Target::VirtualTarget { index } => json!(["v", index]),
         Target::Wire(wr) => json!(["w", wr.row, wr.column]),
@@ -370,6 +374,7 @@ fn builder_trace(args: &[String]) -> anyhow::Result<()> {
         config.num_wires = nw;
         config.num_routed_wires = nr;
         config.num_constants = nc;
+        config.use_base_arithmetic_gate = !nobase;
         let mut b = CircuitBuilder::<F, D>::new(config.clone());
         let mut tg: Vec<Target> = vec![];
         let mut ops: Vec<(F, F, Target, Target, Target)> = vec![];
@@ -377,6 +382,9 @@ fn builder_trace(args: &[String]) -> anyhow::Result<()> {
         let mut ras: Vec<(Target, usize)> = vec![];
         let mut ra_res: Vec<Target> = vec![];
         let mut virts: Vec<Target> = vec![];
+        let mut etg: Vec<ExtensionTarget<D>> = vec![];
+        let mut eops: Vec<(F, F, ExtensionTarget<D>, ExtensionTarget<D>, ExtensionTarget<D>)> = vec![];
+        let mut earith_res: Vec<ExtensionTarget<D>> = vec![];
         // RandomAccessGate of `bits` exists under this row shape iff it has at least one copy
         let ra_bits: Vec<usize> = (1..=4usize)
             .filter(|&bits| (nr / (2 + (1 << bits))).min(nw / (2 + (1 << bits) + bits)) >= 1)
@@ -403,6 +411,55 @@ fn builder_trace(args: &[String]) -> anyhow::Result<()> {
                 let t = b.constant(c);
                 tg.push(t);
                 w.put(&json!({"ev": "const", "c": limbs(c.to_canonical_u64()), "res": tj(t), "ng": b.num_gates()}));
+            } else if choice >= 62 && choice < 80 && nr >= 8 {
+                // extension arithmetic: operands are pairs of existing targets, constant extensions or earlier results
+                let tje = |e: &ExtensionTarget<D>| json!([tj(e.0[0]), tj(e.0[1])]);
+                let mut c0 = cs[r.gen_range(0..cs.len())];
+                let mut c1 = cs[r.gen_range(0..cs.len())];
+                let mk = |r: &mut rand_chacha::ChaCha8Rng, b: &mut CircuitBuilder<F, D>, w: &mut NdJson, etg: &mut Vec<ExtensionTarget<D>>, tg: &Vec<Target>| -> ExtensionTarget<D> {
+                    let k = r.gen_range(0..100);
+                    if k < 45 && !etg.is_empty() {
+                        let m = etg.len();
+                        etg[m - 1 - r.gen_range(0..m.min(5))]
+                    } else if k < 70 {
+                        let e = ExtensionTarget([tg[r.gen_range(0..tg.len())], tg[r.gen_range(0..tg.len())]]);
+                        etg.push(e);
+                        e
+                    } else {
+                        let small = [F::ZERO, F::ONE, F::from_canonical_u64(2), F::from_canonical_u64(2).inverse(), F::NEG_ONE];
+                        let (a, bb) = (small[r.gen_range(0..5)], if r.gen_bool(0.6) { F::ZERO } else { small[r.gen_range(0..5)] });
+                        let e = b.constant_extension(<FE as FieldExtension<D>>::from_basefield_array([a, bb]));
+                        w.put(&json!({"ev": "constext", "e": [limbs(a.to_canonical_u64()), limbs(bb.to_canonical_u64())],
+                            "res": [tj(e.0[0]), tj(e.0[1])], "ng": b.num_gates()}));
+                        etg.push(e);
+                        e
+                    }
+                };
+                let mut x = mk(&mut r, &mut b, &mut w, &mut etg, &tg);
+                let mut y = mk(&mut r, &mut b, &mut w, &mut etg, &tg);
+                let mut z = mk(&mut r, &mut b, &mut w, &mut etg, &tg);
+                let shape = r.gen_range(0..100);
+                if shape < 12 && !eops.is_empty() {
+                    (c0, c1, x, y, z) = eops[r.gen_range(0..eops.len())];
+                } else if shape < 24 && c0 != F::ZERO {
+                    let inv = c0.inverse();
+                    let t = b.constant_extension(<FE as FieldExtension<D>>::from_basefield_array([inv, F::ZERO]));
+                    w.put(&json!({"ev": "constext", "e": [limbs(inv.to_canonical_u64()), limbs(0)], "res": [tj(t.0[0]), tj(t.0[1])], "ng": b.num_gates()}));
+                    if shape % 2 == 0 { x = t } else { y = t }
+                    c1 = F::ZERO;
+                } else if shape < 40 {
+                    // a constant-zero addend selects the multiplication gate
+                    z = b.zero_extension();
+                    w.put(&json!({"ev": "constext", "e": [limbs(0), limbs(0)], "res": [tj(z.0[0]), tj(z.0[1])], "ng": b.num_gates()}));
+                }
+                eops.push((c0, c1, x, y, z));
+                let t = b.arithmetic_extension(c0, c1, x, y, z);
+                earith_res.push(t);
+                etg.push(t);
+                tg.push(t.0[0]);
+                tg.push(t.0[1]);
+                w.put(&json!({"ev": "arithext", "c0": limbs(c0.to_canonical_u64()), "c1": limbs(c1.to_canonical_u64()),
+                    "x": tje(&x), "y": tje(&y), "z": tje(&z), "res": tje(&t), "ng": b.num_gates()}));
             } else if choice < 80 {
                 let c0 = cs[r.gen_range(0..cs.len())];
                 let c1 = cs[r.gen_range(0..cs.len())];
@@ -488,7 +545,11 @@ fn builder_trace(args: &[String]) -> anyhow::Result<()> {
             }
             let gate = found.ok_or_else(|| anyhow::anyhow!("row {row}: no selector names a gate"))?;
             let id = gate.0.id();
-            let kind = if id.starts_with("ArithmeticGate") {
+            let kind = if id.starts_with("ArithmeticExtensionGate") {
+                "arithext".to_string()
+            } else if id.starts_with("MulExtensionGate") {
+                "mulext".to_string()
+            } else if id.starts_with("ArithmeticGate") {
                 "arith".to_string()
             } else if id.starts_with("ConstantGate") {
                 "const".to_string()
@@ -541,6 +602,17 @@ fn builder_trace(args: &[String]) -> anyhow::Result<()> {
                 sem_bad.push(json!({"run": run, "arith": k, "c0": c0.to_canonical_u64(), "c1": c1.to_canonical_u64(),
                     "x": tj(*x), "y": tj(*y), "z": tj(*z), "res": tj(arith_res[k]),
                     "value": a.get(arith_res[k]).to_canonical_u64(), "expected": e.to_canonical_u64()}));
+            }
+        }
+        for (k, (c0, c1, x, y, z)) in eops.iter().enumerate() {
+            let ev = |e: &ExtensionTarget<D>| <FE as FieldExtension<D>>::from_basefield_array([a.get(e.0[0]), a.get(e.0[1])]);
+            let sm = |v: FE, c: F| <FE as FieldExtension<D>>::scalar_mul(&v, c);
+            let e = sm(ev(x) * ev(y), *c0) + sm(ev(z), *c1);
+            sem_checked += 1;
+            if ev(&earith_res[k]) != e {
+                sem_bad.push(json!({"run": run, "arithext": k, "c0": c0.to_canonical_u64(), "c1": c1.to_canonical_u64(),
+                    "res": [tj(earith_res[k].0[0]), tj(earith_res[k].0[1])],
+                    "value": format!("{:?}", ev(&earith_res[k])), "expected": format!("{:?}", e)}));
             }
         }
         for (k, (item, _)) in ras.iter().enumerate() {
